@@ -211,6 +211,39 @@ func liveSession(r *vk.Run, rng *rand.Rand, idx int) {
 	if !compare(st, "after the end of the stream") {
 		return
 	}
+	// a reload starts a new stream: header lines are diverted again, numbering restarts, --tail applies
+	if rng.Intn(2) == 0 {
+		k := []int{0, 1, 2, 5, 150, 320}[rng.Intn(6)]
+		if rng.Intn(3) == 0 && len(recs) <= 3000 {
+			k = len(recs) // as many records as before, different content
+		}
+		recs = nil
+		var sb strings.Builder
+		for i := 0; i < k; i++ {
+			l := mkRec()
+			recs = append(recs, l)
+			sb.WriteString(l)
+			sb.WriteByte('\n')
+		}
+		alt := fifo + ".alt"
+		os.WriteFile(alt, []byte(sb.String()), 0o644)
+		defer os.Remove(alt)
+		act := []string{"reload", "reload-sync"}[rng.Intn(2)]
+		if code, err := s.Post(act + "(cat '" + alt + "')"); err != nil || code != 200 {
+			r.Inconclusive(fmt.Sprintf("POST %s: %v %d", act, err, code))
+			return
+		}
+		hist = append(hist, fmt.Sprintf("%s with %d records", act, k))
+		kinds[act] = true
+		st, ok := s.WaitQuiescent(30 * time.Second)
+		if !ok {
+			r.Inconclusive("no quiescence after the reload: " + s.LastWait)
+			return
+		}
+		if !compare(st, "after "+act) {
+			return
+		}
+	}
 	// what comes out is the original record, byte for byte
 	if query != "" {
 		s.Post("clear-query")
